@@ -25,8 +25,11 @@ def get(names, includes=('pixman-private.h',), pre=''):
     text = '\n'.join(src) + '\n'
     d = os.path.join(build.cache_dir(), 'gen'); os.makedirs(d, exist_ok=True)
     p = os.path.join(d, 'consts_%s.c' % hashlib.sha1(text.encode()).hexdigest()[:10])
-    with open(p, 'w') as f:
-        f.write(text)
+    if not os.path.exists(p):
+        tmp = p + '.tmp%d' % os.getpid()
+        with open(tmp, 'w') as f:
+            f.write(text)
+        os.replace(tmp, p)
     try:
         j = json.load(open(build.shim_facts(p, mode='A')))
     except AnalysisBroken as e:
